@@ -229,7 +229,7 @@ Definition chan_id (lb : label) : option nat :=
   | None => None
   end.
 
-(* ---- load_circuit: pulse table through Model/Concat (fx = true: tree with the C12 repair) ---- *)
+(* ---- load_circuit: pulse table through Model/Concat (fx = true: tree with the C12 first-pulse repair; gx read from the source) ---- *)
 Fixpoint to_instrs (l : list (Q * list (label * Q))) : option (list instr) :=
   match l with
   | [] => Some []
@@ -252,10 +252,32 @@ Definition load (c : cfg) (sched : option (list Q)) (gs : list ngate)
     | il =>
         if forallb (fun lb => match control_of c lb with Some _ => true | None => false end) (labels_of il) then
           rbind (of_opt (to_instrs il)) (fun ci =>
-          rbind (of_opt (compile true sched ci)) (fun tab => Ok (tab, snd o)))
+          rbind (of_opt (compile true concat_gap_resolution sched ci)) (fun tab => Ok (tab, snd o)))
         else Err                                 (* model.get_control(label): KeyError *)
     end).
 
+(* ---- sequential compilation (schedule_mode None) seen by the propagation loop ------------------------------------ *)
+(* coefficient vector of one instruction over the channel list [labels] *)
+Definition label_eqb (a b : label) : bool := (String.eqb (fst a) (fst b) && Z.eqb (snd a) (snd b))%bool.
+Definition coeff_of (ps : list (label * Q)) (m : label) : Q :=
+  match find (fun p => label_eqb m (fst p)) ps with Some p => snd p | None => 0 end.
+Definition ivec (labels : list label) (ps : list (label * Q)) : list Q := map (coeff_of ps) labels.
+(* the instruction windows: (duration, coefficient vector) in gate order, following each other without gap *)
+Definition windows_of (labels : list label) (il : list (Q * list (label * Q))) : list (Q * list Q) :=
+  map (fun i => (fst i, ivec labels (snd i))) il.
+(* what run_analytically loops over for such a table: the merged grid is the set of window boundaries, so there is one
+   slice (dt, coefficient vector) per instruction of positive duration *)
+Definition seq_slices (labels : list label) (il : list (Q * list (label * Q))) : list (Q * list Q) :=
+  flat_map (fun i => if Qlt_b 0 (fst i) then [(fst i, ivec labels (snd i))] else []) il.
+(* channels in order of first appearance (the order of the compiled dictionaries) *)
+Fixpoint nodup_labels (seen l : list label) : list label :=
+  match l with
+  | [] => []
+  | m :: r => if existsb (label_eqb m) seen then nodup_labels seen r else m :: nodup_labels (m :: seen) r
+  end.
+Definition seq_run (c : cfg) (gs : list ngate) : res (list label * list (Q * list Q)) :=
+  rbind (compile_gates c gs 0) (fun o =>
+    let labels := nodup_labels [] (labels_of (fst o)) in Ok (labels, seq_slices labels (fst o))).
 (* ---- the label rule of the code as found (before fixes/C06-swap-coupling-check.diff), kept for the
         refutation theorem ---- *)
 Definition swap_branches_orig : list (bex * lres) :=
@@ -287,3 +309,9 @@ Definition show_control (o : option (hkind * list Z)) : list Z :=
   | None => []
   | Some (k, ts) => (match k with HX => 1 | HZ => 2 | HXY => 3 end)%Z :: ts
   end.
+Definition show_seq (r : res (list label * list (Q * list Q))) : option (list (string * Z) * list (list Z * list (list Z))) :=
+  match r with
+  | Err => None
+  | Ok (ls, sl) => Some (ls, map (fun s => (qzz (fst s), map qzz (snd s))) sl)
+  end.
+
